@@ -67,6 +67,8 @@ def call_ext(interp, st, name, args, kwargs, frame, node) -> List[Outcome]:
         return _hasattr(interp, st, a, frame, node)
     if name == "builtins.isinstance":
         return [Outcome("ok", s, Const(b)) for s, b in isinstance_(interp, st, a[0], a[1], frame, node)]
+    if name == "builtins.bool" and len(a) == 1 and not kwargs:
+        return [Outcome("ok", s, Const(b)) for s, b in interp.truth(st, a[0])]      # keeps the truth facts of the operand
     if name in PRED:
         key = ("pred", name, tuple(repr(interp.ident_key(x)) for x in a))
         if name == "builtins.callable" and isinstance(a[0], (FuncV, BoundV, ClassV)):
